@@ -17,7 +17,9 @@ def run(ctx):
     # binding A': every interleaving (TLC, NsqdCore) of two operations' critical sections forced on the real daemon
     pairs.run_pairs(ctx, "C02", pairs=[p for p in pairs.all_pairs() if "EMPTY" not in p], sample=None if not ctx.quick else 160)
     n = 16 if ctx.quick else 120
-    corelib.run_modes(ctx, "C02", [("contend", n), ("core", n // 2)])
+    corelib.run_modes(ctx, "C02", [("contend", n), ("core", n // 2), ("timing", n // 2)])
+    # nsqd's own tests, run with the hooks on, as a trace corpus
+    corelib.repo_tests(ctx, "C02")
     ctx.cov["distinct_nontrivial"] = len(ctx.notes.get("event_kinds", {}))
     ctx.cov["rule"] = ("evaluations = hook/harness events of real executions checked step by step by TLC against "
                        "NsqdAbs; distinct = event kinds (spec actions) exercised")
